@@ -34,7 +34,7 @@ const epochDay = int64(86400)
 
 type blockIn struct {
 	Off int64 `json:"o"` // seconds after the start of the day
-	C   int   `json:"c"` // content seed (0 = block without flows)
+	C   int   `json:"c"` // content seed: base + 100*variant (base 0 = idle block: no flows, no drops)
 }
 type dayIn struct {
 	Day    int       `json:"d"` // day index relative to dayBase
@@ -128,6 +128,79 @@ func genDay(r *vhlib.Rand, d int, pool []int64) *dayIn {
 	return out
 }
 
+func sortBlocks(b []blockIn) []blockIn {
+	sort.Slice(b, func(i, j int) bool { return b[i].Off < b[j].Off })
+	return b
+}
+
+// twinOf derives a day with the SAME per-day totals as d (flow counts, drops, bytes, packets - hence the
+// same directory name suffix) but different content: other flow keys, contents moved between blocks,
+// other block timestamps, idle blocks on one side only
+func twinOf(r *vhlib.Rand, d dayIn, pool []int64) dayIn {
+	out := dayIn{Day: d.Day, Blocks: append([]blockIn(nil), d.Blocks...)}
+	n := len(out.Blocks)
+	used := map[int64]bool{}
+	for _, b := range out.Blocks {
+		used[b.Off] = true
+	}
+	addIdle := func() {
+		for _, o := range pool {
+			if !used[o] && r.Chance(70) {
+				out.Blocks = append(out.Blocks, blockIn{Off: o})
+				used[o] = true
+			}
+		}
+		for _, o := range []int64{1, 599, 43199, 86398} { // make sure at least something is added
+			if !used[o] && (r.Chance(40) || len(out.Blocks) == n) {
+				out.Blocks = append(out.Blocks, blockIn{Off: o})
+				used[o] = true
+			}
+		}
+	}
+	switch r.Intn(6) {
+	case 0: // same timestamps, other flow keys
+		for i := range out.Blocks {
+			if out.Blocks[i].C%100 != 0 {
+				out.Blocks[i].C += 100 * (1 + r.Intn(2))
+			}
+		}
+	case 1: // contents rotated over the same timestamps
+		for i := range out.Blocks {
+			out.Blocks[i].C = d.Blocks[(i+1)%n].C
+		}
+	case 2: // idle blocks only this side has
+		addIdle()
+	case 3: // a subset of the blocks is idle-only on the other side: drop idle ones here, add others
+		var keep []blockIn
+		for _, b := range out.Blocks {
+			if b.C%100 != 0 || r.Bool() {
+				keep = append(keep, b)
+			}
+		}
+		out.Blocks = keep
+		addIdle()
+	case 4: // same contents, every timestamp moved by one second
+		if n > 0 && out.Blocks[n-1].Off < 86399 {
+			for i := range out.Blocks {
+				out.Blocks[i].Off++
+			}
+		} else if n > 0 && out.Blocks[0].Off > 0 {
+			for i := range out.Blocks {
+				out.Blocks[i].Off--
+			}
+		}
+	case 5: // other flow keys AND idle extras
+		for i := range out.Blocks {
+			if out.Blocks[i].C%100 != 0 {
+				out.Blocks[i].C += 100
+			}
+		}
+		addIdle()
+	}
+	out.Blocks = sortBlocks(out.Blocks)
+	return out
+}
+
 func genRandom(r *vhlib.Rand, o vhlib.Opts) input {
 	in := input{Overwrite: r.Bool(), Dry: r.Chance(25), TolNs: vhlib.Pick(r, tolChoices), Enc: r.Intn(2)}
 	tol := tolSeconds(in.TolNs)
@@ -146,6 +219,17 @@ func genRandom(r *vhlib.Rand, o vhlib.Opts) input {
 		d := ifaceIn{Name: names[k]}
 		for day := 0; day < nDay; day++ {
 			pool := genPool(r, tol)
+			if r.Chance(35) { // equal totals, different content
+				if x := genDay(r, day, pool); x != nil && len(x.Blocks) > 0 {
+					y := twinOf(r, *x, pool)
+					if r.Bool() {
+						*x, y = y, *x
+					}
+					s.Days = append(s.Days, *x)
+					d.Days = append(d.Days, y)
+					continue
+				}
+			}
 			if x := genDay(r, day, pool); x != nil {
 				s.Days = append(s.Days, *x)
 			}
@@ -217,6 +301,23 @@ func fixedCases() []input {
 			}
 		}
 	}
+	// equal per-day totals (= equal directory name suffix), different content
+	completeV := blocks(0, 101, 300, 102, 43200, 103, 85800, 104, 86100, 105) // other flow keys
+	completeR := blocks(0, 2, 300, 3, 43200, 4, 85800, 5, 86100, 1)           // contents rotated
+	partialR := blocks(300, 2, 600, 4, 43200, 1)                              // contents rotated
+	partialT := blocks(301, 1, 601, 2, 43201, 4)                              // timestamps moved
+	partialI := blocks(0, 0, 300, 1, 600, 2, 900, 0, 43200, 4, 50000, 0)      // + idle blocks
+	completeI := blocks(0, 0, 300, 1, 600, 2, 43200, 4, 85800, 0, 86100, 0)   // idle blocks make it complete
+	for _, ow := range []bool{false, true} {
+		for _, dry := range []bool{false, true} {
+			for _, sd := range [][2][]blockIn{{completeV, complete}, {completeR, complete}, {partialR, partial},
+				{partialT, partial}, {partialI, partial}, {partial, partialI}, {completeI, partial}, {partial, completeI}} {
+				out = append(out, input{Overwrite: ow, Dry: dry, TolNs: 300e9,
+					Src: []ifaceIn{{Name: "eth0", Days: []dayIn{{Day: 0, Blocks: sd[0]}}}},
+					Dst: []ifaceIn{{Name: "eth0", Days: []dayIn{{Day: 0, Blocks: sd[1]}}}}})
+			}
+		}
+	}
 	two := []ifaceIn{{Name: "eth0", Days: []dayIn{{Day: 0, Blocks: complete}, {Day: 1, Blocks: partial}}},
 		{Name: "eth1", Days: []dayIn{{Day: 0, Blocks: partialB}}}, {Name: "t4"}}
 	dst := []ifaceIn{{Name: "eth0", Days: []dayIn{{Day: 1, Blocks: partialB}, {Day: 2, Blocks: partial}}},
@@ -265,8 +366,11 @@ func gen(r *vhlib.Rand, i int, o vhlib.Opts) any {
 
 // ---------------------------------------------------------------- writing databases
 
-func flowMap(c int) *hashmap.AggFlowMap {
+// content seed c = base + 100*variant: the variant changes the flow keys only, so two blocks with the
+// same base have identical totals (flow counts, drops, bytes, packets) but different content
+func flowMap(seed int) *hashmap.AggFlowMap {
 	m := hashmap.NewAggFlowMap()
+	c, variant := seed%100, seed/100
 	if c == 0 {
 		return m
 	}
@@ -276,9 +380,10 @@ func flowMap(c int) *hashmap.AggFlowMap {
 		if (c+k)%4 == 3 {
 			var sip, dip [16]byte
 			sip[0], sip[15], dip[0], dip[15] = 0x20, byte(c), 0xfe, byte(k)
+			dip[7] = byte(variant)
 			m.SecondaryMap.Set(types.NewV6KeyStatic(sip, dip, []byte{1, byte(c)}, 17), cnt)
 		} else {
-			m.PrimaryMap.Set(types.NewV4KeyStatic([4]byte{10, 0, byte(c), byte(k)}, [4]byte{10, 0, 0, 2}, []byte{0, byte(80 + k)}, 6), cnt)
+			m.PrimaryMap.Set(types.NewV4KeyStatic([4]byte{10, 0, byte(c), byte(k)}, [4]byte{10, byte(variant), 0, 2}, []byte{0, byte(80 + k)}, 6), cnt)
 		}
 	}
 	return m
@@ -310,7 +415,7 @@ func writeDB(root string, ifs []ifaceIn, enc int) error {
 				continue
 			}
 			for _, b := range d.Blocks {
-				if err := w.Write(flowMap(b.C), capturetypes.CaptureStats{Dropped: uint64(b.C % 2)}, dayTs+b.Off); err != nil {
+				if err := w.Write(flowMap(b.C), capturetypes.CaptureStats{Dropped: uint64((b.C % 100) % 2)}, dayTs+b.Off); err != nil {
 					return err
 				}
 			}
@@ -327,6 +432,7 @@ type blockObs struct {
 }
 type dayObs struct {
 	Ts     int64
+	Suffix string // directory name suffix = encoded day totals
 	Blocks []blockObs
 }
 type ifaceObs struct {
@@ -398,7 +504,7 @@ func readTree(root string) (t tree) {
 }
 
 func readDay(ifacePath, actualPath string, ts int64, suffix string) (do dayObs, msg string) {
-	do.Ts = ts
+	do.Ts, do.Suffix = ts, suffix
 	defer func() {
 		if r := recover(); r != nil {
 			msg = fmt.Sprint("panic while reading: ", r)
@@ -608,6 +714,23 @@ func run(raw json.RawMessage, o vhlib.Opts) (*vhlib.Case, error) {
 	}
 	if !ob.Clean {
 		tags = append(tags, "dirty")
+	}
+	// a day on both sides with the same directory name (same totals) but different blocks
+	for _, si := range ob.Src0.Ifaces {
+		for _, di := range ob.Dst0.Ifaces {
+			if si.Name != di.Name {
+				continue
+			}
+			for _, sd := range si.Days {
+				for _, dd := range di.Days {
+					if sd.Ts == dd.Ts && sd.Suffix == dd.Suffix && fmt.Sprint(sd.Blocks) != fmt.Sprint(dd.Blocks) {
+						if tags[len(tags)-1] != "same-name-different-content" {
+							tags = append(tags, "same-name-different-content")
+						}
+					}
+				}
+			}
+		}
 	}
 	return &vhlib.Case{Observed: ob, Tags: tags, Coq: coq,
 		Nontrivial: s.DaysCopied+s.DaysRebuilt+s.DaysSkipped > 0 || ob.M1.Err != ""}, nil
